@@ -19,11 +19,14 @@ namespace PwVerif.Hint
 inductive Cls
   | object | int | bool | float | str | list | set | frozenset | dict | tuple | type | noneT
   | callable | func | uA | uB | uC | uD
+  /-- `collections.abc.Sequence` / `collections.abc.Mapping` (abstract: `list`, `tuple`, `str` / `dict`
+  are registered below them) -/
+  | sequence | mapping
   deriving DecidableEq, Repr, Inhabited
 
 def Cls.all : List Cls :=
   [.object, .int, .bool, .float, .str, .list, .set, .frozenset, .dict, .tuple, .type, .noneT,
-   .callable, .func, .uA, .uB, .uC, .uD]
+   .callable, .func, .uA, .uB, .uC, .uD, .sequence, .mapping]
 
 /-- `issubclass(x, y)` -/
 def Cls.sub : Cls → Cls → Bool
@@ -34,6 +37,10 @@ def Cls.sub : Cls → Cls → Bool
   | .uB, .uA => true
   | .uC, .uA => true
   | .uC, .uB => true
+  | .list, .sequence => true
+  | .tuple, .sequence => true
+  | .str, .sequence => true
+  | .dict, .mapping => true
   | x, y => x == y
 
 /-- `inspect.signature(cls)` as far as `typeguard.check_callable` looks at it:
@@ -48,6 +55,8 @@ def Cls.sig : Cls → Option (Nat × Nat)
   | .uC => some (0, 0)
   | .uD => some (0, 0)
   | .callable => some (0, 0)
+  | .sequence => some (0, 0)
+  | .mapping => some (0, 0)
   | .func => some (2, 5)
   | _ => none
 
@@ -69,6 +78,31 @@ def Lit.pyEq : Lit → Lit → Bool
 
 /-! ## hints -/
 
+/-- `typing.get_origin` of a subscripted generic (or of a bare `typing` alias) -/
+inductive Org | list | set | dict | tuple | type | callable | literal | seq | mapping
+  deriving DecidableEq, Repr
+
+def Org.cls : Org → Option Cls
+  | .list => some .list | .set => some .set | .dict => some .dict | .tuple => some .tuple
+  | .type => some .type | .callable => some .callable | .literal => none
+  | .seq => some .sequence | .mapping => some .mapping
+
+/-- `hint_origin in [dict, tuple, Callable]` -/
+def Org.ordered : Org → Bool
+  | .dict => true | .tuple => true | .callable => true | _ => false
+
+/-- the bare aliases of `typing` that have an origin but no arguments -/
+inductive Alias | list | set | dict | tuple | type | callable | seq | mapping
+  deriving DecidableEq, Repr
+
+def Alias.org : Alias → Org
+  | .list => .list | .set => .set | .dict => .dict | .tuple => .tuple | .type => .type
+  | .callable => .callable | .seq => .seq | .mapping => .mapping
+
+def Alias.cls : Alias → Cls
+  | .list => .list | .set => .set | .dict => .dict | .tuple => .tuple | .type => .type
+  | .callable => .callable | .seq => .sequence | .mapping => .mapping
+
 inductive Hint
   | cls (c : Cls)
   /-- the object `None` as a generic argument (`list[None]`, `Callable[[int], None]`) -/
@@ -89,6 +123,15 @@ inductive Hint
   | typeOf (a : Hint)
   /-- `Callable[[c1, …], r]` (`some`) or `Callable[..., r]` (`none`) -/
   | callableOf (ps : Option (List Cls)) (r : Hint)
+  /-- `typing.Any` -/
+  | any
+  /-- a bare alias of `typing`: `typing.List`, `typing.Set`, `typing.Dict`, `typing.Tuple`, `typing.Type`,
+  `typing.Callable`, `typing.Sequence`, `typing.Mapping` — an origin and *no* arguments -/
+  | bare (g : Alias)
+  /-- `collections.abc.Sequence[X]` / `typing.Sequence[X]` -/
+  | seqOf (a : Hint)
+  /-- `collections.abc.Mapping[K, V]` / `typing.Mapping[K, V]` -/
+  | mapOf (k v : Hint)
   deriving Repr, Inhabited
 
 /-- what the recursion of the comparison can be called with -/
@@ -97,18 +140,6 @@ inductive Arg
   | ell
   | prm (cs : List Cls)
   deriving Repr, Inhabited
-
-/-- `typing.get_origin` of a subscripted generic -/
-inductive Org | list | set | dict | tuple | type | callable | literal
-  deriving DecidableEq, Repr
-
-def Org.cls : Org → Option Cls
-  | .list => some .list | .set => some .set | .dict => some .dict | .tuple => some .tuple
-  | .type => some .type | .callable => some .callable | .literal => none
-
-/-- `hint_origin in [dict, tuple, Callable]` -/
-def Org.ordered : Org → Bool
-  | .dict => true | .tuple => true | .callable => true | _ => false
 
 /-- `_get_type_hints`: one `Annotated` layer is looked through (typing flattens nested ones) -/
 def strip : Hint → Hint
@@ -128,6 +159,9 @@ def origin : Hint → Option Org
   | .typeOf _ => some .type
   | .callableOf _ _ => some .callable
   | .literal _ => some .literal
+  | .bare g => some g.org
+  | .seqOf _ => some .seq
+  | .mapOf _ _ => some .mapping
   | _ => none
 
 /-- `typing.get_args` of a subscripted generic (not used for `Literal`) -/
@@ -140,7 +174,14 @@ def pyArgs : Hint → List Arg
   | .typeOf a => [.h a]
   | .callableOf none r => [.ell, .h r]
   | .callableOf (some ps) r => [.prm ps, .h r]
+  | .seqOf a => [.h a]
+  | .mapOf k v => [.h k, .h v]
   | _ => []
+
+/-- `hasattr(hint, "__args__")`: everything subscripted, not the bare `typing` aliases -/
+def subscripted : Arg → Bool
+  | .h (.bare _) => false
+  | _ => true
 
 /-! ## configuration: pinned vs repaired behaviour -/
 
@@ -151,12 +192,18 @@ structure Cfg where
   literalTypeStrict : Bool
   /-- `valid_value` uses typeguard only (hypothetical; the pinned code tries `isinstance` first) -/
   tgOnly : Bool
-  /-- an ordered generic is not "more specific" than one with an *empty* argument tuple unless its
-  own is empty too (hypothetical; pinned: always accepted) -/
-  emptyOtherStrict : Bool
+  /-- fix C04-args-rule: arguments of every origin but `Literal` are compared by position, and an empty
+  argument tuple on the receiving side counts as "unspecified" only for a hint that was never subscripted
+  (`typing.Tuple`, not `tuple[()]`). Pinned: only `dict | tuple | Callable` are positional, the rest
+  uses the subset rule, and empty receiving arguments always accept. -/
+  argsFix : Bool
   deriving DecidableEq, Repr
 
 def Cfg.pinned : Cfg := ⟨false, false, false, false⟩
+/-- the tree as it is now (`972e5e8`, `a851bde` applied) -/
+def Cfg.now : Cfg := ⟨true, true, false, false⟩
+/-- the tree after the proposed patch `fixes/C04-args-rule.patch` -/
+def Cfg.argsFixed : Cfg := ⟨true, true, false, true⟩
 /-- after the two proposed patches -/
 def Cfg.patched : Cfg := ⟨true, true, false, false⟩
 def Cfg.repaired : Cfg := ⟨true, true, true, true⟩
@@ -205,6 +252,8 @@ def litLeq (cfg : Cfg) (l m : Lit) : Bool :=
 def leafLe : Arg → Arg → Bool
   | .h (.cls a), .h (.cls b) => a.sub b
   | .h .noneVal, .h .noneVal => true
+  | .h .any, .h .any => true
+  | .h .any, .h (.cls .object) => true
   | .ell, .ell => true
   | .prm a, .prm b => a == b
   | _, _ => false
@@ -241,8 +290,12 @@ def msBody (cfg : Cfg) (rec : Arg → Arg → Option Bool) (h o : Arg) : Option 
           let ha := argArgs h
           let oa := argArgs o
           if ha.isEmpty && !oa.isEmpty then some false
+          else if cfg.argsFix then
+            if oa.isEmpty then some (!subscripted o || (subscripted h && ha.isEmpty))
+            else if oa.length == ha.length then allZip rec ha oa
+            else some false
           else if g.ordered then
-            if oa.isEmpty then some (!cfg.emptyOtherStrict || ha.isEmpty)
+            if oa.isEmpty then some true
             else if oa.length == ha.length then allZip rec ha oa
             else some false
           else
@@ -269,6 +322,10 @@ def size : Hint → Nat
   | .tupleVar a => 2 + size a
   | .typeOf a => 1 + size a
   | .callableOf _ r => 2 + size r
+  | .any => 1
+  | .bare _ => 1
+  | .seqOf a => 1 + size a
+  | .mapOf k v => 1 + size k + size v
 where
   sizeL : List Hint → Nat
     | [] => 0
@@ -330,6 +387,19 @@ def first? : List V → Option V
   | [] => Option.none
   | x :: _ => some x
 
+/-- first character of a string, as a string (what iterating a `str` yields) -/
+def strFirst (x : String) : Option V :=
+  match x.toList with
+  | [] => Option.none
+  | c :: _ => some (.s (String.singleton c))
+
+/-- `isinstance(v, Sequence)` and, if so, its first item (`none` inside = empty) -/
+def seqFirst : V → Option (Option V)
+  | .l xs => some (first? xs)
+  | .t xs => some (first? xs)
+  | .s x => some (strFirst x)
+  | _ => Option.none
+
 /-- `check_callable`'s arity test -/
 def arityOk (v : V) (n : Nat) : Bool :=
   match v with
@@ -367,6 +437,17 @@ def tg : Hint → V → Bool
   | .typeOf _, _ => false
   | .callableOf ps _, v =>
     isCallable v && (match ps with | some cs => arityOk v cs.length | Option.none => true)
+  | .any, _ => true
+  | .bare g, v => tgCls g.cls v
+  | .seqOf a, v =>
+    (match seqFirst v with
+     | Option.none => false
+     | some Option.none => true
+     | some (some x) => tg a x)
+  | .mapOf kh vh, .d ks vs =>
+    (match first? ks with | some x => tg kh x | Option.none => true)
+      && (match first? vs with | some x => tg vh x | Option.none => true)
+  | .mapOf _ _, _ => false
 def tgAny : List Hint → V → Bool
   | [], _ => false
   | h :: hs, v => tg h v || tgAny hs v
@@ -381,6 +462,7 @@ def tgType : Hint → Cls → Bool
   | .unionNew hs, k => tgTypeAny hs k
   | .unionOld hs, k => tgTypeAny hs k
   | .annotated h, k => tgType h k
+  | .any, _ => true
   | _, _ => false
 def tgTypeAny : List Hint → Cls → Bool
   | [], _ => false
@@ -388,24 +470,28 @@ def tgTypeAny : List Hint → Cls → Bool
 end
 
 mutual
-/-- `isinstance(value, hint)`; `none` = `TypeError` -/
-def isinst : Hint → V → Option Bool
+/-- `isinstance(value, hint)`; `none` = `TypeError`. `old` = we are a member of a `typing.Union`, whose
+`__instancecheck__` asks `issubclass(type(value), member)` — the same for classes, but `False` instead of a
+`TypeError` for `typing.Any` -/
+def isinst (old : Bool) : Hint → V → Option Bool
   | .cls c, v => some (isinstCls c v)
-  | .unionNew hs, v => isinstAny hs v
-  | .unionOld hs, v => isinstAny hs v
+  | .bare g, v => some (isinstCls g.cls v)
+  | .any, _ => if old then some false else Option.none
+  | .unionNew hs, v => isinstAny false hs v
+  | .unionOld hs, v => isinstAny true hs v
   | _, _ => Option.none
-def isinstAny : List Hint → V → Option Bool
+def isinstAny (old : Bool) : List Hint → V → Option Bool
   | [], _ => some false
-  | h :: hs, v => match isinst h v with
+  | h :: hs, v => match isinst old h v with
     | Option.none => Option.none
     | some true => some true
-    | some false => isinstAny hs v
+    | some false => isinstAny old hs v
 end
 
 /-- `valid_value(value, hint)` -/
 def admits (cfg : Cfg) (h : Hint) (v : V) : Bool :=
   if cfg.tgOnly then tg h v
-  else match isinst h v with
+  else match isinst false h v with
     | some b => b
     | Option.none => tg h v
 
@@ -446,6 +532,10 @@ def every (p : Hint → Bool) : Hint → Bool
   | .tupleVar a => p (.tupleVar a) && every p a
   | .typeOf a => p (.typeOf a) && every p a
   | .callableOf ps r => p (.callableOf ps r) && every p r
+  | .any => p .any
+  | .bare g => p (.bare g)
+  | .seqOf a => p (.seqOf a) && every p a
+  | .mapOf k v => p (.mapOf k v) && every p k && every p v
 def everyL (p : Hint → Bool) : List Hint → Bool
   | [] => true
   | h :: hs => every p h && everyL p hs
@@ -457,6 +547,11 @@ def notOldUnion : Hint → Bool
 
 def notEmptyTuple : Hint → Bool
   | .tupleFix [] => false
+  | _ => true
+
+/-- no two-parameter generic that the pinned code compares with the subset rule -/
+def notMapOf : Hint → Bool
+  | .mapOf _ _ => false
   | _ => true
 
 /-- all literal values of the hint lie in `S` -/
@@ -472,22 +567,26 @@ def litClean : Hint → Bool
 
 /-- hypotheses of the soundness theorems on the *receiving* hint `o` -/
 def okOther (cfg : Cfg) (S : Lit → Bool) (h : Hint) : Bool :=
-  litsIn S h && litClean h && (cfg.emptyOtherStrict || notEmptyTuple h)
+  litsIn S h && litClean h && (cfg.argsFix || (notEmptyTuple h && notMapOf h))
 
 /-- the value's type is one on which `isinstance` and typeguard never disagree -/
 def plainValue (v : V) : Bool :=
   v.type != .int && v.type != .bool && v.type != .frozenset
 
 mutual
-/-- no `float` / `set` class at a position `isinstance` can reach (top level, through unions) -/
-def topPlain : Hint → Bool
-  | .cls c => c != .float && c != .set
-  | .unionNew hs => topPlainL hs
-  | .unionOld hs => topPlainL hs
+/-- at every position `isinstance` can reach (top level, through unions) it answers like typeguard for this
+value: no `float` / `set` class (or bare `typing.Set`) unless the value is plain, no `typing.Any` inside a
+`typing.Union` -/
+def agreesAt (old : Bool) (v : V) : Hint → Bool
+  | .cls c => plainValue v || (c != .float && c != .set)
+  | .bare g => plainValue v || g != .set
+  | .any => !old
+  | .unionNew hs => agreesAtL false v hs
+  | .unionOld hs => agreesAtL true v hs
   | _ => true
-def topPlainL : List Hint → Bool
+def agreesAtL (old : Bool) (v : V) : List Hint → Bool
   | [] => true
-  | h :: hs => topPlain h && topPlainL hs
+  | h :: hs => agreesAt old v h && agreesAtL old v hs
 end
 
 end PwVerif.Hint
